@@ -33,6 +33,9 @@ ATTR = [
  ("fix: SigMFSource emitted the data with Repeat::finite(0)", ["C16", "C15"]),
  ("fix: derive(Block) sync mode did not compile", ["C19"]),
  ("fix: Mode::Append failed when the file did not exist", ["C17"]),
+ ("fix: Midpointer panicked on a burst", ["C15"]),
+ ("fix: Wpcr panicked on bursts of 4 to 6", ["C15"]),
+ ("fix: SigMFSource panicked on a truncated archive", ["C15"]),
 ]
 log = subprocess.run(["git", "-C", "/repo", "log", "--reverse", "--format=%h\t%s", "--grep", "^fix:"],
                      capture_output=True, text=True).stdout.strip().splitlines()
